@@ -101,6 +101,9 @@ func c11Trans(c *Ctx, pre *Node, st Step, res *Result, post *State) ([]Violation
 		before = bv.entries
 	}
 	if _, ok := qa.S.Goit("logs/HEAD"); !ok {
+		if _, had := pa.S.Goit("logs/HEAD"); had {
+			return []Violation{{Oracle: "journal-append-only", Command: cmd, Tags: tags, Detail: "the HEAD journal existed before the command and is gone after it"}}, false
+		}
 		return nil, true
 	}
 	av := reflogOf(c, post)
